@@ -115,6 +115,34 @@ def index_conds(vm, s, lst: VList, k):
     return nth_present(lst, -k - 1, reverse=True)
 
 
+def count_cmp(opname, a, b):
+    """compare two guarded counts (n_true, guards) structurally; returns B"""
+    (na, ga), (nb, gb) = a, b
+    n = max(len(ga), len(gb))
+    da, db = _dist(ga, len(ga)), _dist(gb, len(gb))
+    terms = []
+    for c in range(len(ga) + 1):
+        for d in range(len(gb) + 1):
+            x, y = c + na, d + nb
+            ok = {"<": x < y, "<=": x <= y, ">": x > y, ">=": x >= y, "==": x == y, "!=": x != y}[opname]
+            if ok:
+                terms.append(AND(da[c], db[d]))
+    return OR(*terms)
+
+
+def _dist(gs, n):
+    d = [TRUE] + [FALSE] * n
+    for p in gs:
+        p = compact(p)
+        nd = []
+        for c in range(n + 1):
+            stay = AND(d[c], NOT(p))
+            inc = AND(d[c - 1], p) if c > 0 else FALSE
+            nd.append(compact(OR(stay, inc)))
+        d = nd
+    return d
+
+
 def count_eq(ga, gb) -> B:
     """the number of true guards in ga equals the number of true guards in gb"""
     n = max(len(ga), len(gb))
@@ -829,8 +857,7 @@ def _list_method(vm, s, lst, name, args, kwargs):
         for j, sl in enumerate(lst.slots):
             m = AND(remaining, sl[0], eq_values(vm, s, sl[1], x))
             if m is not FALSE:
-                pos = z3.Sum([z3.If(to_z3(p), 1, 0) for p in before]) if before else z3.IntVal(0)
-                alts.append((m, Sym("int", pos) if before else 0))
+                alts.append((m, LenSym(0, list(before)) if before else 0))
                 remaining = AND(remaining, NOT(m))
             if sl[0] is not FALSE:
                 before.append(sl[0])
